@@ -78,7 +78,14 @@ pub fn error_variant(e: &Error) -> String {
 }
 
 pub fn silence_panics() {
-    std::panic::set_hook(Box::new(|_| {}));
+    std::panic::set_hook(Box::new(|info| {
+        if std::env::var("MWVERIF_SHOW_PANICS").is_ok() {
+            eprintln!("panic: {}", info);
+            if std::env::var("MWVERIF_SHOW_PANICS").map(|v| v == "bt").unwrap_or(false) {
+                eprintln!("{}", std::backtrace::Backtrace::force_capture());
+            }
+        }
+    }));
 }
 
 /// Outcome of one evaluation
